@@ -29,6 +29,7 @@ Outcome ==
     errk  |-> IF ctl.ok THEN KOther ELSE ctl.err.k,
     att   |-> att,
     evals |-> {<<k[1], k[2], evals[k]>> : k \in DOMAIN evals},
+    upanic |-> UPanic,
     hist  |-> hist ]
 
 Replay == Done => PrintT(<<"REPLAY", ToJson(Outcome)>>)
